@@ -15,6 +15,9 @@ from prov.model import ProvDocument
 
 
 class C04(Oracle):
+    # reach probes that must not be stuck at zero (else the workload is not reaching what
+    # the design says it reaches): the check then exits 2
+    required_probes = {"quick": ['equal_pairs', 'unequal_pairs', 'content_preserving_partner', 'prov_compare_equal', 'prov_compare_different', 'edit_swap_type', 'edit_toggle_id'], "thorough": ['equal_pairs', 'unequal_pairs', 'content_preserving_partner', 'prov_compare_equal', 'prov_compare_different', 'edit_swap_type', 'edit_toggle_id']}
     prop = "C04"
     cross_hash = True
 
